@@ -252,9 +252,12 @@ func (root *Root) regField(obj *Object, fd *FieldDef, goField string, args ...st
 				if a := fd.args.get(arg); a != nil {
 					_ = newArgs.add(a)
 				} else {
-					err = fmt.Errorf("%w: %s is not an argument on field %s of %s", ErrMeta, arg, goField, objMeta)
-					break
+					// The arguments the schema declares stay as they are.
+					return fmt.Errorf("%w: %s is not an argument on field %s of %s", ErrMeta, arg, goField, objMeta)
 				}
+			}
+			if newArgs.Len() != len(args) {
+				return fmt.Errorf("%w: an argument is named twice for field %s of %s", ErrMeta, goField, objMeta)
 			}
 			fd.args = newArgs
 		}
